@@ -844,6 +844,67 @@ class CallMixin:
             st.heap[name] = T.store(arr, dst.base, new_inner)
 
     # ------------------------------------------------------------ top level
+    def sibling_literal(self, fn, name, st, depth):
+        """fn is a function literal analysed on its own and captures the local `name` of func type.  When the enclosing
+        function assigns that local exactly once, with a function literal (`name := func ...`), and no literal of the
+        enclosing function assigns it, the captured value IS that literal: calls through it are calls of its body.  Its
+        own captured variables become (transitive) free variables of fn, visible to fn's contract by name."""
+        par = self.prog.funcs.get(fn.get('parent') or '')
+        if par is None or depth > 3:
+            return None
+        defs = {}
+        for b in par['blocks']:
+            for ins in b['instrs']:
+                if 'id' in ins:
+                    defs[ins['id']] = ins
+        allocs = [i for i in defs.values() if i['op'] == 'Alloc' and i.get('name') == name]
+        if len(allocs) != 1:
+            return None
+        aid = allocs[0]['id']
+        stores = [ins for b in par['blocks'] for ins in b['instrs'] if ins['op'] == 'Store' and ins.get('addr') == aid]
+        if len(stores) != 1 or not isinstance(stores[0].get('val'), str):
+            return None
+        mk = defs.get(stores[0]['val'])
+        if not mk or mk['op'] != 'MakeClosure':
+            return None
+        for g in self.prog.funcs.values():
+            # a literal (at any depth) of the enclosing function that stores to the captured variable
+            if g['name'].startswith(par['name'] + '$') and any(fv['name'] == name for fv in g.get('freevars', [])):
+                for b in g['blocks']:
+                    for ins in b['instrs']:
+                        if ins['op'] == 'Store' and ins.get('addr') == {'fv': name}:
+                            return None
+        sib = self.prog.funcs.get(mk['fn'])
+        if sib is None or sib['name'] == fn['name']:
+            return None
+        binds = []
+        for breg, fvp in zip(mk['bindings'], sib['freevars']):
+            d = defs.get(breg) if isinstance(breg, str) else None
+            if d is not None and d['op'] == 'Alloc' and d.get('name'):
+                nm, et = d['name'], d['elem']
+            elif isinstance(breg, dict) and 'fv' in breg and any(fv['name'] == breg['fv'] for fv in par.get('freevars', [])):
+                nm = breg['fv']
+                et = self.ty.elem([fv for fv in par['freevars'] if fv['name'] == nm][0]['type'])
+            else:
+                return None
+            cid = ('fv', nm)
+            if cid not in st.cells:
+                v = self.ty.symbolic(et, nm)
+                for f in self.ty.facts(v, et, self.mode == 'wrap'):
+                    self.hyps.append(f)
+                st.cells[cid] = v
+                self.cell_types[cid] = et
+                if self.ty.kind(et) in ('pointer', 'map', 'chan') and is_term(v):
+                    self.hyps.append(T.le(v, self.ALLOC0))
+                self.transitive_fv[nm] = (cid, et)
+                if self.ty.kind(et) == 'signature':
+                    cl = self.sibling_literal(fn, nm, st, depth + 1)
+                    if cl is not None:
+                        st.cells[cid] = cl
+            binds.append(PtrV('cell', cid))
+        self.renamed_used.add('%s: captured local %s is the function literal %s' % (fn['name'].rsplit('/', 1)[-1], name, sib['name'].rsplit('.', 1)[-1]))
+        return ClosureV(sib['name'], binds)
+
     def run(self):
         fn, spec = self.fn, self.spec
         T.reset_counter()
@@ -894,6 +955,13 @@ class CallMixin:
             if self.ty.kind(et) in ('pointer', 'map', 'chan') and is_term(v):
                 self.hyps.append(T.le(v, self.ALLOC0))
             bindings.append(PtrV('cell', cid))
+        self.transitive_fv = {}
+        for p in fn['freevars']:
+            if self.ty.kind(self.ty.elem(p['type'])) == 'signature' and not (spec and p['name'] in spec.params):
+                # (a `param <name>:` clause means the contract abstracts the captured function by a contract of its own)
+                cl = self.sibling_literal(fn, p['name'], st, 0)
+                if cl is not None:
+                    st.cells[('fv', p['name'])] = cl
         if spec:
             for g, sort in spec.ghost:
                 cid = ('ghost', g)
@@ -1022,6 +1090,10 @@ class CallMixin:
                 if not self.clause_hits.get(id(c)):
                     self.errors.append('clause produced no obligation (code it speaks about is gone or unreachable): %s %s'
                                        % (c.kind, c.text))
+            for anchor, g, idx, val, c in spec.sets_at:
+                if not self.clause_hits.get(id(c)):
+                    self.errors.append('ghost assignment never executed (the statement it is anchored at is gone or unreachable): set-at %r: %s'
+                                       % (anchor.replace('\x00after\x00', ''), g))
         self.exit_state = ex
         self.exit_env = envx
         self.check_frame(ex, env, envx, spec)
